@@ -4,6 +4,7 @@ PROP = {
     "generated": ["EnvelopeTables", "MultiReaderConsts"],
     "lean_modules": ["SwimVerif.Model.Envelope", "SwimVerif.Proofs.Envelope", "SwimVerif.Generated.EnvelopeTables",
                      "SwimVerif.Model.Routing", "SwimVerif.Model.RoutingMon", "SwimVerif.Proofs.Routing",
+                     "SwimVerif.Model.WsFrames", "SwimVerif.Proofs.WsFrames",
                      "SwimVerif.Model.MultiReader", "SwimVerif.Proofs.MultiReader", "SwimVerif.Proofs.MultiReaderReady", "SwimVerif.Proofs.MultiReaderPending",
                      "SwimVerif.Proofs.MultiReaderRank", "SwimVerif.Proofs.MultiReaderFair",
                      "SwimVerif.Generated.MultiReaderConsts"],
@@ -16,6 +17,10 @@ PROP = {
          "cases": {"quick": 12000, "thorough": 400000}, "min_shard": 1000, "gen_args": ["route"]},
         {"name": "mr", "crate": "core", "bin": "sv-c11", "machine": "c11mr",
          "cases": {"quick": 16000, "thorough": 500000}, "min_shard": 1000, "gen_args": ["mr"]},
+        {"name": "wakepoll", "crate": "core", "bin": "sv-c11", "machine": "c11mrw", "modes": ["monitor"],
+         "cases": {"quick": 6000, "thorough": 300000}, "min_shard": 1000, "gen_args": ["mrw"]},
+        {"name": "threads", "crate": "core", "bin": "sv-c11", "machine": "c11mrs", "modes": ["monitor"], "shards": 1,
+         "cases": {"quick": 12, "thorough": 400}, "gen_args": ["mrs"], "nontrivial_min_ops": 1, "shrink": False},
     ],
     "level_text": "Proof (Lean 4, no axioms beyond the three standard ones). (1) Writer/reader: for every envelope kind, "
                   "EVERY node and lane string (sequences of Unicode scalar values: empty, true/false, quotes, backslashes, "
@@ -40,8 +45,12 @@ PROP = {
                   "contain); numbers/blobs/records as values and rate/prio slots are outside it and only fuzzed (no panic). "
                   "Web socket framing (ratchet), tokio scheduling and the byte channels are sampled through the socket rig, not "
                   "proved. MultiReader bit masks are modelled as finite index sets; its sources are passive queues in the "
-                  "manual-poll engine (FramedRead over byte channels is exercised by the socket rig's burst operations). Open: "
-                  "fair_within_2n_polls. The three defects found by this check (FC11-1, FC11-2, and F16 reached through the "
+                  "manual-poll engine (FramedRead over byte channels is exercised by the socket rig's burst operations and by "
+                  "the multi-threaded engine). The reassembly of fragmented web-socket text messages with interleaved control "
+                  "frames is modelled (WsFrames) and proved; ratchet's frame parsing itself is sampled by the rig's raw-frame "
+                  "peer. The wake ordering of MultiReader (flag before wake) under eager and real multi-threaded schedules is "
+                  "sampled by two monitor-only engines, not proved (the model's steps are atomic). The value-based fairness "
+                  "statement is false for repeated items (C11_fair_within_2n_polls_fails); the position-based one is proved. The three defects found by this check (FC11-1, FC11-2, and F16 reached through the "
                   "socket) are repaired in /repo; the shape of each repaired expression is a generated flag, so reverting a "
                   "repair breaks the corresponding theorem and the monitors report the failing frame.",
     "trusted_base": COMMON_TRUST + [
